@@ -74,6 +74,33 @@ theorem kv_flush_tie :
     (callsAfter C09.kvFlushCalls "lock.Lock").contains "family.GetSnapshot" = true ∧
     (callsAfter C09.kvFlushCalls "lock.Lock").contains "bucketCache.Purge" = true := by decide
 
+/-- `indexKVStore.Flush`, the exact call list: needFlush, write every bucket, commit the kv family, and
+only then — under the lock — new snapshot, `immutable = nil`, cache purge … -/
+theorem kv_flush_exact_tie :
+    C09.kvFlushCalls = ["s.needFlush", "family.NewFlusher", "defer:kvFlusher.Release", "newIndexKVFlusher", "λ:len",
+      "λ:flusher.PrepareBucket", "λ:strutil.String2ByteSlice", "λ:append", "λ:append", "λ:flusher.WriteKVs",
+      "λ:flusher.CommitBucket", "immutable.WalkEntry", "flusher.Close", "lock.Lock", "defer:lock.Unlock",
+      "snapshot.Close", "family.GetSnapshot", "bucketCache.Purge"] := by decide
+
+/-- … and every error branch of `Flush` only returns the error: a failed flush leaves mutable, immutable
+and snapshot as they were (the model's failed step is a no-op, `Op.metaFlushFail`) -/
+theorem kv_flush_error_paths_tie : C09.kvFlushErrBranchCalls.all (· = []) = true ∧ C09.kvFlushErrBranchCalls.length = 4 := by
+  decide
+
+/-- the schema lookup of the create path (`getSchemaLocked`, under the store lock): memory maps, then the
+kv family — no read of the LRU cache (unless `currentCfg.schemaLockedUsesCache` says so, which
+`schema_cache_verdict` then refutes) -/
+theorem schema_locked_lookup_tie :
+    currentCfg.schemaLockedUsesCache = false →
+      C09.schemaGetSchemaLockedCalls = ["uint32", "mutable.Get", "immutable.Get", "s.getSchemaFromKV"] ∨
+      C09.schemaGetSchemaLockedCalls = [] := by decide
+
+/-- readers fill the cache after their kv read (`GetSchema`), `Flush` purges it under the lock -/
+theorem schema_cache_tie :
+    C09.schemaGetSchemaCalls.filter (fun c => c = "s.getSchemaFromMem" ∨ c = "cache.Get" ∨ c = "s.getSchemaFromKV" ∨ c = "cache.Add") =
+      ["s.getSchemaFromMem", "cache.Get", "s.getSchemaFromKV", "cache.Add"] ∧
+    (callsAfter C09.schemaFlushCalls "lock.Lock").contains "cache.Purge" = true := by decide
+
 /-- everything `Flush` calls, except the deferred reset of the `flushing` flag and its test-and-set -/
 def isFlushStep (c : String) : Bool := !(c = "defer:?" || c = "?.CompareAndSwap")
 
@@ -170,6 +197,22 @@ theorem fresh_after_recover (c : Cfg) {nd : Node} (inv : NodeInv nd) (op : Op) (
   have : k = k' := view_inj fi hs (r k i hobs) (m k' i hused)
   subst this
   rw [hnew] at hused; cases hused
+
+/-- **stable across failed flushes**: `Op.metaFlushFail k` (a metadata flush that returns an error at
+step k: the kv family commit of a dictionary failed) is an ordinary operation of a run — `epochOk` admits
+it, so `stable`, `injective`, `stable_wrt_start` above hold for histories with any number of failed
+flushes at any step. Spelled out for one failed flush: every name keeps its id. -/
+theorem stable_across_failed_flush (c : Cfg) {nd : Node} (inv : NodeInv nd) (k : Nat) (key : NameKey) (i : Nat)
+    (h : nd.view key = some i) : (step c nd (.metaFlushFail k)).1.view key = some i :=
+  (step_spec c inv (.metaFlushFail k) rfl (by simp [step])).2.1 key i h
+
+/-- **the create path never consults the LRU schema cache**: whatever the cache holds (stale entries
+included), `genFieldID` / `genTagKeyID` answer the same and leave the same store -/
+theorem gen_ignores_cache (v : SchemaVariant) (lim : Limits) (s : SchemaStore) (cache : Nat → Option Nat) (ctr m x : Nat) :
+    (genField v lim (s.withCache cache) m x).2 = (genField v lim s m x).2 ∧
+    (genTagKey v lim (s.withCache cache) ctr m x).2 = (genTagKey v lim s ctr m x).2 := by
+  rw [genField_withCache, genTagKey_withCache]
+  exact ⟨rfl, rfl⟩
 
 /-! ### ids used by recovered index entries -/
 
@@ -300,6 +343,14 @@ theorem lookup_flush_persistedFirst :
     (kexecG (kstepPF .noRecheck) { store := {}, ctr := 0 } lookupFlushSchedule).threads = [⟨0, 7, .done 0⟩, ⟨0, 7, .done 1⟩] := by
   decide
 
+/-- … but with the `recheckLocked` createValue (what /repo has since fix 79fc5a0) the swapped order is
+harmless on this schedule: the second caller misses twice, and createValue — looking again under the write
+lock in the memory maps and in the CURRENT snapshot — finds the name. (Seeded change c09-2 is masked by
+the repair: its own demo passes, and this check rightly reports no violation for it.) -/
+theorem lookup_flush_persistedFirst_locked :
+    (kexecG (kstepPF .recheckLocked) { store := {}, ctr := 0 } lookupFlushSchedule).threads = [⟨0, 7, .done 0⟩, ⟨0, 7, .done 0⟩] := by
+  decide
+
 /-- … while lindb's order finds the name on the same schedule -/
 theorem lookup_flush_memFirst :
     (kexec .noRecheck { store := {}, ctr := 0 } lookupFlushSchedule).threads = [⟨0, 7, .done 0⟩, ⟨0, 7, .done 0⟩] := by
@@ -344,6 +395,17 @@ theorem schema_flush_window_repaired :
     let c : Cfg := { schemaMarkWritten := true }
     let r := (run c ({} : Node) [.metric 97 0 0, .field 0 1, .metaPrepare]).metaFlushFieldInWindow c 0 2
     r.2 = .id 1 ∧ (step c (run c r.1 [.metaPrepare, .metaFlush]) (.field 0 3)).2 = some (.id 2) := by decide
+
+/-- reader ‖ writer ‖ flush on a persisted schema {field 1 = 0}: with a create path that trusts the LRU
+cache the reader's stale object makes field 3 get id 1, which field 2 owns … -/
+theorem schema_cache_race_cached :
+    let nd := run {} ({} : Node) [.metric 97 0 0, .field 0 1, .metaPrepare, .metaFlush]
+    (nd.schemaCacheRace { schemaLockedUsesCache := true, schema := .lookupLocked } 0 2 3).2 = (.id 1, .id 1) := by decide
+
+/-- … lindb's create path (memory maps, then kv family) gives 1 and 2 -/
+theorem schema_cache_race_lindb :
+    let nd := run {} ({} : Node) [.metric 97 0 0, .field 0 1, .metaPrepare, .metaFlush]
+    (nd.schemaCacheRace { schema := .lookupLocked } 0 2 3).2 = (.id 1, .id 2) := by decide
 
 /-- the history of the witness case: the tag value `1` of tag key 0 is created after the last metadata
 flush (Sync), used by a series, the shard's index is flushed, the node is reopened -/
@@ -400,6 +462,21 @@ theorem schema_verdict : SchemaVerdict currentCfg.schema := by
   cases h : currentCfg.schema with
   | lookupLocked => exact schema_locked_ignores_snapshot
   | snapshotOutside => exact ⟨by decide, by decide⟩
+
+/-- what reader ‖ writer ‖ flush says about the schema lookup of the create path -/
+def SchemaCacheVerdict : Bool → Prop
+  | false => ∀ (v : SchemaVariant) (lim : Limits) (s : SchemaStore) (cache : Nat → Option Nat) (ctr m x : Nat),
+      (genField v lim (s.withCache cache) m x).2 = (genField v lim s m x).2 ∧
+      (genTagKey v lim (s.withCache cache) ctr m x).2 = (genTagKey v lim s ctr m x).2
+  | true =>
+      let nd := run {} ({} : Node) [.metric 97 0 0, .field 0 1, .metaPrepare, .metaFlush]
+      (nd.schemaCacheRace { schemaLockedUsesCache := true, schema := .lookupLocked } 0 2 3).2 = (.id 1, .id 1)
+
+/-- **schema_cache_verdict**: decided for the create path /repo has now -/
+theorem schema_cache_verdict : SchemaCacheVerdict currentCfg.schemaLockedUsesCache := by
+  cases h : currentCfg.schemaLockedUsesCache with
+  | false => exact gen_ignores_cache
+  | true => exact Neg.schema_cache_race_cached
 
 /-- what lookup ‖ flush says about the order of the two lookups -/
 def LookupVerdict : Bool → Prop
